@@ -142,7 +142,7 @@ var DefTexts = []string{
 
 func init() {
 	// numerals longer than the shortest decimal form of any float64 (leading zeros, long fractions)
-	DefTexts = append(DefTexts, strings.Repeat("0", 350)+"7", "1."+strings.Repeat("0", 340))
+	DefTexts = append(DefTexts, strings.Repeat("0", 350)+"7", "1."+strings.Repeat("0", 340), "line 1\n\nline 3", "x\n \n\t\ny")
 }
 
 type GenCfg struct {
@@ -155,6 +155,7 @@ type GenCfg struct {
 	// AutoNames / AutoTexts: literals of the tree under test (see mon/autodict.go); one pick in AutoEvery comes from them.
 	AutoNames, AutoTexts []string
 	AutoEvery            int
+	AttrCollide          bool // allow two attributes of one element to share a local name (under different prefixes)
 }
 
 func (g GenCfg) name(r *rand.Rand) string {
@@ -201,9 +202,12 @@ func (g GenCfg) Gen(r *rand.Rand, depth int) *Node {
 			}
 		}
 		if seen[k] {
-			continue
+			if !g.AttrCollide || seen[QN(a.Prefix, a.Local)] || r.Intn(2) == 0 {
+				continue
+			}
 		}
 		seen[k] = true
+		seen[QN(a.Prefix, a.Local)] = true
 		n.Attrs = append(n.Attrs, a)
 	}
 	var kids []*Node
@@ -266,10 +270,10 @@ func kids0name(kids []*Node, k *Node) (string, string) {
 func (n *Node) addMisc(r *rand.Rand, hasText bool) {
 	misc := []Item{}
 	if r.Intn(4) == 0 {
-		misc = append(misc, Item{Kind: KComment, Text: []string{" c ", "note", "a-b", "x<y&z", "", "a> <b", "p>\n\t<q"}[r.Intn(7)]})
+		misc = append(misc, Item{Kind: KComment, Text: []string{" c ", "note", "a-b", "x<y&z", "", "a> <b", "p>\n\t<q", "42", "true", "1.5e3", "l1\n\nl3"}[r.Intn(11)]})
 	}
 	if r.Intn(8) == 0 {
-		misc = append(misc, Item{Kind: KDirective, Text: []string{"ENTITY e \"v\"", "X y", "DOCTYPE q", "ENTITY f \"v> <w\""}[r.Intn(4)]})
+		misc = append(misc, Item{Kind: KDirective, Text: []string{"ENTITY e \"v\"", "X y", "DOCTYPE q", "ENTITY f \"v> <w\"", "7", "false"}[r.Intn(6)]})
 	}
 	if r.Intn(6) == 0 {
 		misc = append(misc, Item{Kind: KPI, Target: []string{"pi", "php", "x-y"}[r.Intn(3)], Text: []string{"a=\"b\"", "do it", "x", "x> <y"}[r.Intn(4)]})
